@@ -150,11 +150,15 @@ class FileScanHelper:
             self.__scan_file(source_provider, next_file_name)
             return True
         except BadPluginError as this_exception:
-            self.__handle_scan_error(next_file, this_exception, allow_shortcut=True)
+            self.__handle_scan_error(
+                next_file_name, this_exception, allow_shortcut=True
+            )
         except BadTokenizationError as this_exception:
             if not self.__continue_on_error:
                 raise
-            self.__handle_scan_error(next_file, this_exception, allow_shortcut=True)
+            self.__handle_scan_error(
+                next_file_name, this_exception, allow_shortcut=True
+            )
         return False
 
     def __scan_file(
